@@ -141,6 +141,9 @@ pub const VOCAB: &[&str] = &[
     "zorvex", "quillon", "brimtal", "dask", "ferrox", "lumen", "novak", "ostrel", "pyxis", "rundle",
     "w17x", "k9", "tavrin", "ulmex", "vexil", "yarrow",
 ];
+/// Words that begin or end with a non-ASCII letter (used by the pure parser/evaluator monitor only: the corpora of the
+/// search monitors stay with `VOCAB`, which every Tantivy analyzer leaves alone).
+pub const VOCAB_UNICODE: &[&str] = &["日本", "café", "über", "naïve", "élan", "señor", "зима"];
 pub const SCOPES: &[&str] = &["mv2://docs/", "mv2://Notes/", "mv2://docs/Sub/", "file:///x/"];
 pub const TRACKS: &[&str] = &["main", "Side", "LOG"];
 pub const TAGS: &[&str] = &["red", "Blue", "GREEN", "x1"];
@@ -271,6 +274,25 @@ pub fn blank_frame(id: u64) -> Frame {
     }
 }
 
+/// Replace about half of the plain words of a query by words that begin or end with a non-ASCII letter.
+fn unicodify(q: &mut Q, rng: &mut Rng) {
+    match q {
+        Q::Word(w) => { if rng.chance(1, 2) { let pick = rng.pick(VOCAB_UNICODE); *w = case_mangle(rng, pick); } }
+        Q::Not(x) => unicodify(x, rng),
+        Q::And(xs, _) | Q::Or(xs) => xs.iter_mut().for_each(|x| unicodify(x, rng)),
+        _ => {}
+    }
+}
+
+fn rand_doc_frame_unicode(rng: &mut Rng, uris: &[String]) -> (Frame, String) {
+    let (f, mut content) = rand_doc_frame(rng, uris);
+    for _ in 0..rng.below(4) {
+        content.push(' ');
+        content.push_str(rng.pick(VOCAB_UNICODE));
+    }
+    (f, content.to_lowercase())
+}
+
 fn rand_doc_frame(rng: &mut Rng, uris: &[String]) -> (Frame, String) {
     let mut f = blank_frame(rng.below(100));
     f.uri = if rng.chance(9, 10) { Some(rng.pick_ref(uris).clone()) } else { None };
@@ -309,10 +331,13 @@ pub fn c32(rep: &mut Report, rng: &mut Rng, cases: u64) {
         }
         // (b) semantics
         let uris = doc_uris(rng);
-        let q = rand_query(rng, 3, &uris, true);
+        let mut q = rand_query(rng, 3, &uris, true);
+        // a third of the cases use words with non-ASCII first / last letters, in the query and in the documents
+        let unicode_words = rng.chance(1, 3);
+        if unicode_words { unicodify(&mut q, rng); rep.count("cases_with_non_ascii_words"); }
         let text = if rng.chance(1, 3) { q.print_paren() } else { q.print() };
         for _ in 0..3 {
-            let (frame, content) = rand_doc_frame(rng, &uris);
+            let (frame, content) = if unicode_words { rand_doc_frame_unicode(rng, &uris) } else { rand_doc_frame(rng, &uris) };
             let expect = reference_eval(&q, &DocView::of(&frame, &content));
             rep.count("semantic_checks");
             rep.count(if expect { "semantic_true" } else { "semantic_false" });
